@@ -106,7 +106,7 @@ func UTF16EncodeStd(s []rune) []uint16 {
 		b = make([]uint16, n)
 		i int
 	)
-	for n = 0; n < len(s); i++ {
+	for n = 0; i < len(s); i++ {
 		switch {
 		case 0 <= s[i] && s[i] < utfSurgA, utfSurgC <= s[i] && s[i] < utfSelf:
 			b[n] = uint16(s[i])
@@ -156,7 +156,7 @@ func utf16Encode(s []rune) ([]uint16, error) {
 		b = make([]uint16, n)
 		i int
 	)
-	for n = 0; n < len(s); i++ {
+	for n = 0; i < len(s); i++ {
 		switch {
 		case s[i] == 0 && i+1 < len(s):
 			return nil, syscall.EINVAL
